@@ -831,7 +831,7 @@ func clValue(r *rng, cmd string, o clOpt, src int) string {
 			}
 			return hexStr(strconv.FormatFloat(-0.75-float64(r.intn(5))*0.0001, 'f', -1, 64))
 		case strings.HasSuffix(o.path, "bearing"):
-			return hexStr(pick(r, []string{"0", "90", "45.5", "180", "271"}))
+			return hexStr(pick(r, []string{"0", "90", "45.5", "180", "271", "-30", "-150", "-90", "400"})) // any real number is a bearing
 		case strings.HasSuffix(o.path, "distance"):
 			return hexStr(pick(r, []string{"10", "5", "25.5", "0"}))
 		}
